@@ -12,12 +12,28 @@ fn main() {
     }
     for (header, body) in cases {
         let id = header.split_whitespace().next().unwrap_or("?").to_string();
+        let run = header.split_whitespace().any(|t| t == "run=1");
         let r = std::panic::catch_unwind(|| {
             let mut ctx = Context::builder().instructions_remaining(1 << 20).build().unwrap();
             match Script::parse(Source::from_bytes(body.as_bytes()), None, &mut ctx) {
                 Err(e) => format!("#### {id} parse-error {e}\n"),
                 Ok(s) => match s.codeblock(&mut ctx) {
-                    Ok(cb) => format!("#### {id} ok\n{}", boa_engine::verif::dump_code_blocks(&cb)),
+                    Ok(cb) => {
+                        let mut out = format!("#### {id} ok\n{}", boa_engine::verif::dump_code_blocks(&cb));
+                        if run {
+                            // execute with the per-instruction probe on; report each distinct observation once
+                            boa_engine::verif::set_probe(true);
+                            let _ = boa_engine::verif::take_probe();
+                            let r = s.evaluate(&mut ctx);
+                            let _ = ctx.run_jobs();
+                            boa_engine::verif::set_probe(false);
+                            let mut seen = std::collections::BTreeSet::new();
+                            for rec in boa_engine::verif::take_probe() { seen.insert(rec); }
+                            out.push_str(&format!("#### run {}\n", if r.is_ok() { "ok" } else { "err" }));
+                            for (bid, pc, t, e, b, fp) in seen { out.push_str(&format!("P {bid} {pc} {t} {e} {b} {fp}\n")); }
+                        }
+                        out
+                    }
                     Err(e) => format!("#### {id} compile-error {e}\n"),
                 },
             }
